@@ -107,7 +107,7 @@ Proof.
   destruct HS as [s i w y q Hn Hst Htq | s i w q Hn Hst Htq | s i w y Hn Hst | s i w r o Hn Ho
                  | s i w c Hn Hst Hex | s r q Hpc Hdq | s Hpc Hdq | s obs Hpc | s r Hpc Hg Hok
                  | s r Hpc Hg Htol Hf | s Hpc Hg | s Hpc Hb | s Hpc Hb];
-    (split; [intros _ | intros El; try discriminate El]);
+    (split; [intros Hne; try congruence | intros El; try discriminate El]);
     unfold mu, weight; simpl;
     try (pose proof (Forall_nth_error _ _ _ _ _ HW Hn) as Hw;
          match goal with |- context [upd (ws s) i ?w'] =>
@@ -144,3 +144,123 @@ Proof.
 Qed.
 
 End Progress.
+
+(* ================================================================================================ *)
+(* The parent does not spin on its own *)
+
+(* no worker step (task take, stop, finish, feeder flush, exit visibility) is enabled *)
+Definition quiescent (cfg : config) (s : state) : Prop :=
+  forall l, actor l <> 0 -> exec cfg s l = None.
+
+Definition ret_ok (s : state) : Prop :=
+  ppc s = AtGet \/ ppc s = AtReap -> Forall (fun w => w_ret w = false) (ws s).
+
+Lemma ret_step : forall cfg s l s', ret_ok s -> step cfg s l s' -> ret_ok s'.
+Proof.
+  intros cfg s l s' HR HS. unfold ret_ok in *.
+  destruct HS as [s i w y q Hn Hst Htq | s i w q Hn Hst Htq | s i w y Hn Hst | s i w r o Hn Ho
+                 | s i w c Hn Hst Hex | s r q Hpc Hdq | s Hpc Hdq | s obs Hpc | s r Hpc Hg Hok
+                 | s r Hpc Hg Htol Hf | s Hpc Hg | s Hpc Hb | s Hpc Hb]; simpl; intros Hp;
+    try (destruct Hp; discriminate);
+    try (apply Forall_upd; [auto | simpl; exact (Forall_nth_error _ _ _ _ _ (HR Hp) Hn)]);
+    try (apply HR; left; assumption).
+  apply Forall_forall. intros w Hin. apply in_map_iff in Hin. destruct Hin as (w0 & <- & _).
+  unfold restart_w. destruct (w_ret w0) eqn:E; auto.
+Qed.
+
+Lemma ret_reachable : forall cfg s, reachable cfg s -> ret_ok s.
+Proof.
+  intros cfg s H. induction H as [|s l s' HR IH HE].
+  - unfold ret_ok, init; simpl. intros _. apply Forall_forall. intros w Hin.
+    apply repeat_spec in Hin. subst. reflexivity.
+  - eapply ret_step; [exact IH | apply exec_step; exact HE].
+Qed.
+
+Lemma brk_live_sound : forall b, brk_live b = true -> eval_brk b true true true = true.
+Proof.
+  intros b H. unfold brk_live in H. rewrite forallb_forall in H.
+  specialize (H (true, true, true)). simpl in H. apply H. auto.
+Qed.
+
+Lemma owing_pos : forall l i w, nth_error l i = Some w -> owes w = true -> 0 < owing l.
+Proof.
+  unfold owing. induction l as [|h t IH]; destruct i; simpl; intros w H E; try discriminate.
+  - injection H as H; subst. rewrite E. simpl. lia.
+  - specialize (IH _ _ H E). destruct (owes h); simpl; lia.
+Qed.
+
+Definition settled (w : worker) : Prop :=
+  (exists c, w_st w = Exited c) /\ w_out w = [] /\ w_ret w = false.
+
+Lemma settled_weight_le : forall w, settled w -> w_weight (restart_w (reap_w w)) <= w_weight w.
+Proof.
+  intros w _. pose proof (w_weight_restart (reap_w w)). pose proof (w_weight_reap w). lia.
+Qed.
+
+Lemma settled_weight_lt : forall w, settled w -> w_in w = true -> w_weight (restart_w (reap_w w)) < w_weight w.
+Proof.
+  intros w ((c & Est) & Eo & Er) Ein. unfold reap_w. rewrite Ein, Est.
+  destruct c; unfold restart_w, w_weight; simpl; rewrite ?Ein, ?Er, ?Est, ?Eo; simpl; lia.
+Qed.
+
+Lemma settled_pool_weight : forall l,
+  Forall settled l -> pool_empty l = false ->
+  ws_weight (map restart_w (map reap_w l)) < ws_weight l.
+Proof.
+  induction l as [|h t IH]; simpl; intros HF HP; try discriminate.
+  inversion HF as [|? ? Hh Ht]; subst.
+  assert (LE : ws_weight (map restart_w (map reap_w t)) <= ws_weight t).
+  { clear IH HP HF. induction t as [|a t' IH']; simpl; auto.
+    inversion Ht as [|? ? Ha Ht']; subst. pose proof (settled_weight_le a Ha). specialize (IH' Ht'). lia. }
+  destruct (w_in h) eqn:Ein; simpl in HP.
+  - pose proof (settled_weight_lt h Hh Ein). lia.
+  - pose proof (settled_weight_le h Hh). specialize (IH Ht HP). lia.
+Qed.
+
+Section Spin.
+Variable cfg : config.
+Hypothesis put_before_exit : forall out, c_exit cfg out = true -> out = [].
+Hypothesis exit_live : c_exit cfg [] = true.
+Hypothesis wf : wf_cfg cfg = true.
+Hypothesis live : brk_live (c_brk cfg) = true.
+
+Lemma quiescent_settled : forall s,
+  reachable cfg s -> ppc s = AtGet -> quiescent cfg s -> Forall settled (ws s).
+Proof.
+  intros s HR Hpc HQ. destruct (reachable_inv cfg put_before_exit wf s HR) as [_ _ H3 _ _ _ _].
+  pose proof (ret_reachable cfg s HR (or_introl Hpc)) as Hret.
+  apply Forall_forall. intros w Hin. apply In_nth_error in Hin. destruct Hin as [i Hn].
+  assert (Eo : w_out w = []).
+  { destruct (w_out w) as [|r o] eqn:E; auto.
+    specialize (HQ (LFlush i)). simpl in HQ. rewrite Hn, E in HQ. discriminate HQ. discriminate. }
+  pose proof (Forall_nth_error _ _ _ _ _ Hret Hn) as Er. simpl in Er.
+  repeat split; auto.
+  destruct (w_st w) as [| y | c | c] eqn:Est; eauto; exfalso.
+  - destruct H3 as (pend & Hq & _).
+    destruct (taskq s) as [|[j|] q] eqn:Etq.
+    + assert (O : 0 < owing (ws s)) by (eapply owing_pos; eauto; unfold owes; rewrite Est; reflexivity).
+      destruct pend; simpl in Hq; try discriminate. destruct (owing (ws s)); simpl in Hq; [lia | discriminate].
+    + specialize (HQ (LTake i j)). simpl in HQ. rewrite Hn, Est, Etq, Nat.eqb_refl in HQ. discriminate HQ. discriminate.
+    + specialize (HQ (LStop i)). simpl in HQ. rewrite Hn, Est, Etq in HQ. discriminate HQ. discriminate.
+  - specialize (HQ (LFinish i y)). simpl in HQ. rewrite Hn, Est, Nat.eqb_refl in HQ. discriminate HQ. discriminate.
+  - specialize (HQ (LExit i)). simpl in HQ. rewrite Hn, Est, Eo, exit_live in HQ. discriminate HQ. discriminate.
+Qed.
+
+Lemma no_idle_spin : forall s,
+  reachable cfg s -> ppc s = AtGet -> doneq s = [] -> quiescent cfg s ->
+  exists s', run cfg s [LGetEmpty; LReap (reap_obs (ws s)); LNoDeliver;
+                        if eval_brk (c_brk cfg) (pool_empty (map reap_w (ws s))) (pool_empty (ws s)) true
+                        then LBreak else LLoop] = Some s' /\
+             (ppc s' = Done \/ mu cfg s' < mu cfg s).
+Proof.
+  intros s HR Hpc Hdq HQ. pose proof (quiescent_settled s HR Hpc HQ) as HS.
+  destruct (eval_brk (c_brk cfg) (pool_empty (map reap_w (ws s))) (pool_empty (ws s)) true) eqn:Eb;
+    simpl; rewrite Hpc, Hdq; simpl; rewrite obs_eqb_refl; simpl; rewrite Eb; eexists; split; eauto.
+  right. unfold mu, weight; simpl. rewrite Hpc, Hdq. simpl.
+  assert (HP : pool_empty (ws s) = false).
+  { destruct (pool_empty (ws s)) eqn:E; auto.
+    rewrite (pool_empty_reap _ E) in Eb. rewrite (brk_live_sound _ live) in Eb. discriminate. }
+  pose proof (settled_pool_weight (ws s) HS HP). destruct (got s); lia.
+Qed.
+
+End Spin.
